@@ -24,6 +24,19 @@ CHECKS = {
    text="Runtime monitoring: generated models (fan-in with repeated calls, callers with callers, cycles through the target, mutual recursion, external callees) x targets run through the real RCallGraph.Analysis, `coca rcall` and `coca call -l`; the monitor checks the callback map for exact multiset equality with the inverse project-internal call relation and the DOT edges against the caller-chain relation (membership, direct-caller completeness, well-formedness by two parsers).",
    technique="generated workloads + offline reference-model monitor (inverse-relation equality, caller-chain membership), crash monitor",
    design="§4 C04"),
+ "C05": dict(
+   text="Runtime monitoring: generated projects whose call sites are biased towards one method (implicit/field/parameter/local receivers across files, several sites per line, declaration and call on one line, 2-/3-/4-byte UTF-8 in comments and literals before sites, same-named decoys) x rename requests with |new| in 1..40; the real full-pass model is handed to the real RenameMethodApp / `coca refactor -R`; a byte-level frame monitor compares every file with the original in which exactly the model-attributed identifier tokens are replaced, then the tree is re-analysed and compared with the renamed original model.",
+   technique="generated workloads with planted token offsets + byte-level frame-condition monitor + re-analysis equality",
+   design="§4 C05"),
+ "C06": dict(
+   text="Runtime monitoring: generated directories of 1-8 Java files, each import planted with its kind (single / wildcard / static method / static constant) and the roles its name plays in that file (type of field/parameter/local/return, generic argument, annotation, new, static receiver, catch, throws, none); bytes of every file before/after the real RemoveUnusedImportApp Analysis+Refactoring, after a second run, and through `coca refactor -m cfg -p dir`; monitor: frame (only whole import lines deleted), soundness (deleted => unreferenced), completeness (every planted-unused import deleted in every file), idempotence.",
+   technique="generated workloads with planted import roles + byte-level frame/soundness/completeness/idempotence monitor",
+   design="§4 C06"),
+ "C11": dict(
+   text="Runtime monitoring: generated JUnit-style trees (test classes by name and under src/test/java, flat and Maven layouts, production classes with the same patterns) whose test methods are assembled from planted evidence (annotations in every order, prints, sleeps, redundant assertions, assertions by every documented prefix with multiplicities around 5, plain calls, helpers with/without assertions) run through TbsApp.AnalysisPath wired as cmd/tbs.go does and through `coca tbs [--sort]`; monitor: multiset equality of findings per (file, type[, line]) with the model of the statement.",
+   technique="generated workloads with planted evidence + offline exactly-once monitor over test-smell findings; known findings matched by planted-ground-truth signature",
+   design="§4 C11"),
+
  "C13": dict(
    text="Runtime monitoring: generated code models (types over package trees 1-5 deep, implements/extends/field/call relations to project types, externals, self, Main/main, colliding package-segment concatenations) x include filters x merge modes run through the real ArchApp.Analysis, MergeHeaderFile, ToMapDot and `coca arch [-x][-H][-P]`; the monitor checks node list, relation restricted to node pairs, the package quotient without self-loops and the DOT (gographviz parse, each type a leaf once under its package clusters, edges only between displayed nodes) against a reference relation built from the statement.",
    technique="generated workloads + offline reference-model monitor (relation/quotient equality, DOT structure), crash monitor",
